@@ -51,6 +51,7 @@ def c07_units(tier):
     return [
         Unit("hasCycle-vs-spec", WORLD + ["c07.go"], "zzC07_HasCycle_N" + n, {"loop": 24, "rec": int(n) + 1}, bounds="Deps over %s slot ids, any edge relation (cyclic or not), from/to arbitrary ids; recursion unwound to depth %s+1 with unwinding assertions" % (n, n)),
         Unit("link-step", WORLD + ["c07.go"], "zzC07_LinkStep", stub, note="hasCycle replaced by its reachability summary (checked by hasCycle-vs-spec)", bounds="store of 3 items (any kinds/states), edges = any acyclic same-kind relation between live items (symbolic rank witness), 1 tombstone; request sequence|sequence rm with arbitrary from/to ids (live, pruned, unknown, equal)"),
+        Unit("chain", WORLD + ["c07.go"], "zzC07_Chain", stub, note="hasCycle replaced by its summary", bounds="store of 3 items, no tombstone; sequence A B C with arbitrary ids (two edges in one command)"),
         Unit("mirror", WORLD + ["c07.go"], "zzC07_Mirror", stub, note="hasCycle replaced by its summary", bounds="store of 2 items; one link/unlink step; deps/rdeps slices rebuilt by the real replay post-processing"),
     ]
 
